@@ -43,11 +43,11 @@ CONC_NOTE = ("Trusted: eventfd / epoll / std::sync::mpsc / async-task / polling:
 CLAIMED.update({
     "C03": ("TLA+ protocol model PingProto (one action per yield-to-yield step of a thread) model-checked by TLC; its schedules replayed on real threads by the step scheduler and compared event-for-event; all recorded traces validated by TLC against ConcContract; sequential histories through LoopContract",
             "Model checking of every interleaving of the ping protocol for the configured scripts + schedule replay on real eventfds + trace validation.", "4/C03", CONC_NOTE),
-    "C04": ("TLA+ contract ConcContract (order / exactly-once / single Closed / no stranded message / blocking send completes) validated by TLC on traces of real threads driven by the step scheduler (seeded schedules); sequential histories through LoopContract",
-            "Trace validation by TLC of scheduled executions of channel() and sync_channel(0,1,2) with batch limits 1..3 and at the real limit.", "4/C04", CONC_NOTE),
+    "C04": ("TLA+ protocol model ChanProto (mpsc queue, ping, drop order; variants as TLC attack schedules) and the channel kind of LoopCore (bounded batch with self re-ping) model-checked by TLC; their schedules / behaviours replayed on the real crate; contract ConcContract (order / exactly-once / single Closed / no stranded message / blocking send completes) validated by TLC on traces of real threads under the step scheduler, including free-running bursts in which a sender really blocks on a full channel while the loop dispatches at full speed; sequential histories (also beyond the real limit of 1024 per dispatch) through LoopContract",
+            "Model checking of the channel protocol for the configured scripts + schedule replay + trace validation of scheduled executions of channel() and sync_channel(0,1,2) with batch limits 1..3 and at the real limit.", "4/C04", CONC_NOTE),
     "C10": ("TLA+ protocol model ExecProto (enqueue / notified swap / eventfd write / flag clear / dequeue steps) model-checked by TLC, its schedules and the TLC attack schedule of the wrong variant replayed on real waker threads under the step scheduler; executor and StreamSource kinds of LoopCore (run queue, notified flag, batch limit with self re-ping, futures dropped with the executor; stream polled until Pending) model-checked and their behaviours replayed event for event; all traces validated by TLC against ConcContract / LoopContract",
             "Model checking of the wake protocol for the configured scripts and of executor/stream histories (schedule, wake, complete, disable, enable, remove, re-insert, scheduling from callbacks and futures, batch limits 1..3 through the hook) + schedule replay + trace validation.", "4/C10", CONC_NOTE),
-    "C11": ("TLA+ contract ConcContract (run() returns after stop+wakeup within one iteration, never without stop; block_on result) validated by TLC on traces with real blocking waits under the step scheduler",
+    "C11": ("TLA+ protocol model SignalProto (stop flag, sticky notification, run() / block_on() steps; wrong variants swap_after_poll, notify_before_store, wakeup_coalesced) model-checked by TLC; all schedules of the small scripts and the TLC counterexample schedules of the variants replayed on real threads with real epoll waits; contract ConcContract (run() returns after stop+wakeup within one iteration, never without stop; block_on result, several block_on per loop, block_on(TimeoutFuture), an armed timer bounding the wait) validated by TLC on the recorded traces",
             "Trace validation by TLC of scheduled executions of run()/block_on() with real epoll waits; a wait that does not return within the watchdog is recorded as stuck.", "4/C11", CONC_NOTE),
     "C18": ("TLA+ transcription of transient.rs (Transient.tla) model-checked exhaustively by TLC; an edge cover of the reachable graph (every state x call) is replayed on the real TransientSource inside a real loop and the recorded calls are validated by TLC against the same operators",
             "Exhaustive model checking of the wrapper state machine + one real execution per model transition (MongoDB-style), kernel epoll table as second oracle.", "4/C18",
